@@ -13,6 +13,7 @@ import (
 )
 
 func main() {
+	ev.GuardFor("C02")
 	r := ev.Start("C02")
 	r.SetDeadline(ev.Pick(r, 50*time.Second, 1200*time.Second))
 	type cfg struct {
@@ -55,6 +56,19 @@ func main() {
 	}
 	r.Set("families", fam)
 	r.Set("family_nmax", nmax)
+	// build-then-remove families: every size up to the bound, 7 build orders, every single
+	// removal (and every ordered pair of removals for the smaller sizes), checked after each
+	{
+		var tr func(any)
+		if ev.Tracing() {
+			tr = ev.Trace
+		}
+		cases, msg, rp := avlh.RemovalFamilies(ev.Pick(r, 96, 300), ev.Pick(r, 30, 60), true, tr)
+		if msg != "" {
+			r.Report(ev.Violation{Sig: "family|Balance", Msg: msg, Replay: rp})
+		}
+		r.Set("removal_family_cases", cases)
+	}
 	r.Set("states", states)
 	r.Set("transitions", trans)
 	r.Set("traces_validated_against_impl", trans)
@@ -144,12 +158,18 @@ func family(ins, del string, n int) string {
 		return ""
 	}
 	for _, v := range order(ins, n) {
+		if ev.Tracing() {
+			ev.Trace(map[string]any{"family": ins + "/" + del, "op": "Add", "value": v})
+		}
 		t.Add(v)
 		if m := check(fmt.Sprintf("after Add(%d)", v)); m != "" {
 			return m
 		}
 	}
 	for _, v := range order(del, n) {
+		if ev.Tracing() {
+			ev.Trace(map[string]any{"family": ins + "/" + del, "insertions": n, "op": "Remove", "value": v})
+		}
 		if !t.Remove(v) {
 			return fmt.Sprintf("balance-family: Remove(%d) returned false", v)
 		}
